@@ -265,7 +265,7 @@ impl Http {
 pub fn index_zoo(world: &World, scratch: &Scratch, name: &str, icfg: &IndexCfg) -> anyhow::Result<PathBuf> {
   let dir = scratch.sub(name);
   let index = idx::open(world, &dir, icfg)?;
-  index.update()?;
+  crate::util::watched(|| index.update())?;
   drop(index);
   Ok(dir)
 }
